@@ -107,7 +107,7 @@ def gen_cases(ctx, tier):
         sp = "{}" if canonical else rng.choice(SPELL + ["{}", "{}"])
         return (s, d, rng.choice(KINDS4), sp)
 
-    na, nb, nc = (700, 500, 24) if tier == "quick" else (6000, 5000, 260)
+    na, nb, nc = (700, 500, 16) if tier == "quick" else (6000, 5000, 260)
     # family A: acyclic (edges go from lower to higher index), any spelling, multi-edges
     for _ in range(na):
         n = rng.choice([2, 3, 3, 4, 4])
